@@ -91,7 +91,12 @@ def trivia_selected_comments(src, node, opts):
     lead, trail = str(lead), str(trail)
     out = collections.Counter()
     if not hasattr(node, 'lineno'):
-        return out
+        kids = [k for k in ast.walk(node) if hasattr(k, 'lineno')]
+        if not kids:
+            return out
+        first = min(kids, key=lambda k: (k.lineno, k.col_offset))
+        last = max(kids, key=lambda k: (k.end_lineno, k.end_col_offset))
+        node = ast.Name(id='_', lineno=first.lineno, col_offset=first.col_offset, end_lineno=last.end_lineno, end_col_offset=last.end_col_offset)
     lines = src.split('\n')
     try:
         toks = list(tokenize.generate_tokens(io.StringIO(src).readline))
@@ -115,6 +120,19 @@ def trivia_selected_comments(src, node, opts):
                 elif trail.startswith('block') and not lines[ln - 1].strip():
                     break
                 ln += 1
+    # comments between the element and its own enclosing parentheses disappear with those parentheses
+    code = [t_ for t_ in toks if t_.type not in (tokenize.COMMENT, tokenize.NL, tokenize.NEWLINE, tokenize.INDENT, tokenize.DEDENT, tokenize.ENDMARKER) and t_.string]
+    s_pos = (node.lineno, len(lines[node.lineno - 1].encode()[:node.col_offset].decode()))
+    e_pos = (node.end_lineno, len(lines[node.end_lineno - 1].encode()[:node.end_col_offset].decode()))
+    li = max((i for i, t_ in enumerate(code) if t_.end <= s_pos), default=-1)
+    ri = min((i for i, t_ in enumerate(code) if t_.start >= e_pos), default=len(code))
+    while li >= 0 and ri < len(code) and code[li].string == '(' and code[ri].string == ')':
+        for t_ in toks:
+            if t_.type == tokenize.COMMENT and (code[li].end <= t_.start < s_pos or e_pos <= t_.start < code[ri].start):
+                out[t_.string.rstrip()] += 1
+        s_pos, e_pos = code[li].start, code[ri].end
+        li -= 1
+        ri += 1
     if not lead.startswith('none'):
         first_ln = node.lineno
         col0 = len(lines[node.lineno - 1].encode()[:node.col_offset].decode())
@@ -328,10 +346,13 @@ def run_window(ctx, FST, src, label, rnd, n_targets):
                 key = None
                 if fld in ('orelse', 'finalbody') and (what == 'node' and len(getattr(par, fld)) == 1 or what == 'slice' and i0 == 0 and i1 == len(getattr(node, lf))):
                     key = 'comment-lost-when-else-or-finally-block-emptied'
-                elif (isinstance(par, ast.BoolOp) and what == 'node' and path[-1][1] > 0) or (what == 'slice' and isinstance(node, ast.BoolOp) and i0 > 0):
-                    key = 'comment-after-deleted-left-operator-lost'
+                elif (isinstance(par, ast.BoolOp) and what == 'node') or (what == 'slice' and isinstance(node, ast.BoolOp)):
+                    key = 'boolop-operand-cut-drops-comment-next-to-removed-operator'
                 elif re.search(r'\\\n[ \t]*;', src):
                     key = 'statement-cut-before-semicolon-on-continuation-line'
+                if key is None and not isinstance(node if what == 'node' else (getattr(node, lf, None) or [None])[0] if not lf.startswith('_') else None, (ast.stmt, ast.ExceptHandler, ast.match_case)) \
+                        and not (what == 'slice' and lf in ('body', 'orelse', 'finalbody', 'handlers', 'cases', '_body')):
+                    key = 'exprlike-cut-loses-comment-not-selected-by-trivia'
                 if key:
                     ctx.violation(key, f'{what} {cls}{"." + lf if lf else ""} ({oc}): comments lost {dict(cb - ca)}; remainder={short(r2.src, 200)!r} piece={short(cc.src, 100)!r}', case)
                     continue
